@@ -75,8 +75,8 @@ def run_task(task):
                 if st == 'unknown':
                     res['undecided'].append(dict(obligation=vc.name, task=task['args'], reason=model, pc=pc[:40]))
                     continue
-                rec = dict(obligation=vc.name, props=list(vc.props), task=task['args'], pc=pc[:60],
-                           model=str(model)[:4000])
+                rec = dict(obligation=vc.name, props=list(vc.props), task=task['args'], module=task['module'], pc=pc[:60],
+                           model=str(model)[:4000], solver='z3 %s: sat (negated obligation satisfiable under the path condition)' % z3.get_version_string())
                 nrep = replayed.get(key, 0)
                 replayed[key] = nrep + 1
                 if nrep >= task.get('max_replays_per_clause', 2):
